@@ -191,12 +191,12 @@ func checkConcurrent(c raceCase) *rp.Fail {
 
 func genConcurrent(t *rapid.T) raceCase {
 	c := raceCase{Rounds: rapid.IntRange(50, 400).Draw(t, "rounds"), Workers: rapid.IntRange(2, 8).Draw(t, "workers")}
-	op := rapid.SampledFrom([]string{"SetTimeProfile", "SetTimeProfile", "PutCard", "SetListener", "SetDoorPasscodes", "SetAddress"}).Draw(t, "op")
-	n := rapid.IntRange(2, 4).Draw(t, "tuples")
+	op := rapid.SampledFrom([]string{"SetTimeProfile", "SetTimeProfile", "PutCard", "SetListener", "SetDoorPasscodes", "SetDoorPasscodes", "SetAddress", "AddTask", "SetDoorControlState"}).Draw(t, "op")
+	n := rapid.IntRange(2, 5).Draw(t, "tuples")
 	for i := 0; i < n; i++ {
 		cs := gen.Call(t, op)
 		cs.Call.Serial = 405419896
-		if i%2 == 1 {
+		if i%3 == 1 { // (two of three tuples are valid: what reaches the transport is the encoding of ONE of them, never a blend)
 			for k := 0; k < 6; k++ { // an invalid variant of the same operation
 				x := cs
 				perturb(t, &x)
